@@ -1,10 +1,14 @@
 /- C09 line-protocol driver: prints `model <TAB> spec` for each case line.
 
-   new kind=ss|fs|fi cap=N cmp=less|greater|tless|tgreater|hless ctor=range|cont|su|sur init=[..] other=[..]
-   insert k=K [via=insert|move|emplace]   insert k=K via=hint pos=P      insert_range ks=[..]
+   new kind=ss|fs|fi|fv cap=N cmp=less|greater|tless|tgreater|hless ctor=range|cont|su|sur init=[..] other=[..]
+       (kind=fv: flat_set over etl::inplace_vector — ctor=su only; operations: lookups, clear, extract, cmp, sizes)
+   insert k=K [via=insert|move|emplace]   insert k=K via=hint pos=P      insert_range ks=[..] [su=1: insert(sorted_unique, first, last), same model]
    erase_key k=K   erase_at pos=P   erase_range first=F last=L   clear   swap   extract   replace c=[..]
    find|contains|count k=K [het=1]   lower_bound|upper_bound|equal_range k=K [het=1]   riter
-   mset kind=fs|fi cmp=.. c=[..]               (flat_multiset construction, stateless; containers of capacity 8)
+   erase_if m=M r=R        (`etl::erase_if(cur, [](int v){ return v % M == R; })`: erased count)
+   cmp                     (`cur OP other` for OP in == != < <= > >=, printed as six 0/1 digits)
+   sizes                   (`sz(size,empty,full|-,max_size)`)
+   mset kind=fs|fi|fv cmp=.. c=[..]            (flat_multiset construction, stateless; containers of capacity 8)
    `het=1` selects the `K const&` overload: the key is a value of another type, compared through its integer
    payload (`Het` instance `ek x k = lt x k`, `ke k x = lt k x`).
    every answer is followed by the state of the current set: ` n=<size> d=[..]`                     -/
@@ -16,6 +20,7 @@ open Tetl Tetl.Proto Tetl.C09
 
 structure Live where
   kind : Kind
+  ipv : Bool          -- flat_set over etl::inplace_vector (`kind=fv`): `kind` is `.fs`, the container members are the C01 model's
   lt : Nat → Nat → Bool
   cap : Nat
   model : Except Err (St Nat)
@@ -31,7 +36,10 @@ def cmpOf : String → Option (Nat → Nat → Bool)
   | _ => none
 
 def kindOf : String → Option Kind
-  | "ss" => some .ss | "fs" => some .fs | "fi" => some .fi | _ => none
+  | "ss" => some .ss | "fs" => some .fs | "fi" => some .fi | "fv" => some .fs | _ => none
+
+/-- element `operator==` / `operator<` of `int` -/
+def elemNat : Elem Nat := { eq := fun a b => a == b, lt := fun a b => decide (a < b) }
 
 def ctorOf : String → Option Ctor
   | "range" => some .range | "cont" => some .cont | "su" => some .su | "sur" => some .sur | _ => none
@@ -58,9 +66,16 @@ def fmtOut (hint : Bool) (size : Nat) : Out Nat → String
   | .pair a b => s!"{a}:{b}"
   | .elems l => fmtNatList l
 
+def fmtXOut (hint : Bool) (size : Nat) : XOut Nat → String
+  | .base o => fmtOut hint size o
+  | .bools bs => String.join (bs.map fun b => if b then "1" else "0")
+  | .sizes n e f m =>
+    let fs := match f with | some b => fmtBool b | none => "-"
+    s!"sz({n},{fmtBool e},{fs},{m})"
+
 def fmtSt (l : List Nat) : String := s!" n={l.length} d={fmtNatList l}"
 
-def parseOp (l : Line) : Option (Op Nat Nat × Bool) :=
+def parseBase (l : Line) : Option (Op Nat Nat × Bool) :=
   let het := (l.nat? "het").getD 0 == 1
   match l.op with
   | "insert" =>
@@ -86,6 +101,16 @@ def parseOp (l : Line) : Option (Op Nat Nat × Bool) :=
     | some w, some k => some (if het then .hlookup w k else .lookup w k, false)
     | _, _ => none
 
+def parseOp (l : Line) : Option (XOp Nat Nat × Bool) :=
+  match l.op with
+  | "erase_if" =>
+    match l.nat? "m", l.nat? "r" with
+    | some m, some r => some (.eraseIf (fun v => v % m == r), false)
+    | _, _ => none
+  | "cmp" => some (.cmp, false)
+  | "sizes" => some (.sizes, false)
+  | _ => (parseBase l).map fun (op, hint) => (.base op, hint)
+
 def step (st : DState) (l : Line) : DState × String :=
   let bad := (st, "bad-op\tbad-op")
   match l.op with
@@ -94,20 +119,22 @@ def step (st : DState) (l : Line) : DState × String :=
     | some kind, some lt, some cap, some ctor =>
       let init := (l.natList? "init").getD []
       let other := (l.natList? "other").getD []
+      let ipv := (l.str? "kind").getD "" == "fv"
+      if ipv && ctor != .su then bad else
       let m : Except Err (St Nat) := do
-        let c ← construct kind lt cap ctor init
-        let o ← construct kind lt cap .range other
+        let c ← if ipv then fvCtor cap init else construct kind lt cap ctor init
+        let o ← if ipv then fvCtor cap other else construct kind lt cap .range other
         pure { cur := c, other := o }
-      let s : St Nat := { cur := Spec.construct lt cap ctor init, other := Spec.construct lt cap .range other }
+      let s : St Nat := { cur := Spec.construct lt cap ctor init,
+                          other := if ipv then Spec.construct lt cap .su other else Spec.construct lt cap .range other }
       let ms := match m with | .ok x => "ok" ++ fmtSt x.cur | .error e => e.fmt
-      (some { kind := kind, lt := lt, cap := cap, model := m, spec := s }, ms ++ "\t" ++ "ok" ++ fmtSt s.cur)
+      (some { kind := kind, ipv := ipv, lt := lt, cap := cap, model := m, spec := s }, ms ++ "\t" ++ "ok" ++ fmtSt s.cur)
     | _, _, _, _ => bad
   | "mset" =>
     match (l.str? "cmp").bind cmpOf, l.natList? "c" with
     | some lt, some c =>
-      let r := if (l.str? "kind").getD "fs" == "fi" then
-          (match miniCtor 8 c with | .ok x => Tetl.C06.sort lt x 0 x.length | .error e => .error e)
-        else msetCtor lt 8 c
+      let k := (l.str? "kind").getD "fs"
+      let r := if k == "fi" then fiMsetCtor lt 8 c else if k == "fv" then fvMsetCtor lt 8 c else msetCtor lt 8 c
       let m := match r with | .ok x => fmtNatList x | .error e => e.fmt
       (st, m ++ "\t" ++ fmtNatList (Spec.multiset lt c))
     | _, _ => bad
@@ -119,11 +146,21 @@ def step (st : DState) (l : Line) : DState × String :=
         match lv.model with
         | .error e => (.error e, e.fmt)
         | .ok x =>
-          match C09.step lv.kind lv.lt (hetOf lv.lt) lv.cap x op with
-          | .ok (x', o) => (.ok x', fmtOut hint x'.cur.length o ++ fmtSt x'.cur)
+          let r : Except Err (St Nat × XOut Nat) :=
+            if lv.ipv then
+              match op with
+              | .base .clear => do .ok ({ x with cur := (← fvClear lv.cap x.cur) }, .base .unit)
+              | .base .extract => do
+                let (l', c) ← fvExtract lv.cap x.cur
+                .ok ({ x with cur := l' }, .base (.elems c))
+              | .base (.lookup ..) | .base (.hlookup ..) | .cmp | .sizes => C09.xstep .fs lv.lt (hetOf lv.lt) elemNat lv.cap x op
+              | _ => .error (.pre "flat_set over inplace_vector: the member does not compile")
+            else C09.xstep lv.kind lv.lt (hetOf lv.lt) elemNat lv.cap x op
+          match r with
+          | .ok (x', o) => (.ok x', fmtXOut hint x'.cur.length o ++ fmtSt x'.cur)
           | .error e => (.error e, e.fmt)
-      let (s', o) := Spec.step isSet lv.lt (hetOf lv.lt) lv.cap lv.spec op
-      (some { lv with model := m', spec := s' }, ms ++ "\t" ++ fmtOut hint s'.cur.length o ++ fmtSt s'.cur)
+      let (s', o) := Spec.xstep isSet lv.lt (hetOf lv.lt) elemNat lv.cap lv.spec op
+      (some { lv with model := m', spec := s' }, ms ++ "\t" ++ fmtXOut hint s'.cur.length o ++ fmtSt s'.cur)
     | _, _ => bad
 
 end Tetl.C09.Driver
